@@ -98,3 +98,32 @@ func VH_C13_Golden() {
 	vrt.Assert(c13val(ComputeCRC([]byte("123456789"))) == 0x0376E6E7, "CRC-32/MPEG-2 check value of \"123456789\"")
 	vrt.Reach("end")
 }
+
+// long inputs: a concrete (pseudo-random) prefix of section-sized length followed by one fully
+// symbolic final byte, compared with the reference: every value of the last byte at that
+// position, for lengths around the 1021/1024-byte section limits.
+func VH_C13_LongInputs() {
+	lens := []int{4, 100, 183, 1019, 1020, 1021, 1022, 1023, 1024, 1025, 2000}
+	n := lens[vrt.Choose("len", 0, len(lens)-1)]
+	in := make([]byte, n)
+	x := uint32(0x2545F491)
+	for i := range in {
+		x ^= x << 13
+		x ^= x >> 17
+		x ^= x << 5
+		in[i] = byte(x >> 11)
+	}
+	last := vrt.Byte("last")
+	in[n-1] = last
+	out := ComputeCRC(in)
+	vrt.Assert(c13val(out) == c13ref(in), "ComputeCRC = CRC-32/MPEG-2 on section-sized inputs (every value of the final byte)")
+	// single-bit strings of this length (concrete): first, middle and last byte, lowest and highest bit
+	for _, pos := range []int{0, n / 2, n - 1} {
+		for _, bit := range []uint{0, 7} {
+			z := make([]byte, n)
+			z[pos] = 1 << bit
+			vrt.Assert(c13val(ComputeCRC(z)) == c13ref(z), "ComputeCRC = CRC-32/MPEG-2 on single-bit strings of this length")
+		}
+	}
+	vrt.Reach("end")
+}
